@@ -6,8 +6,69 @@ package simctx
 
 import (
 	"context"
+	"runtime"
+	"runtime/debug"
+	"runtime/metrics"
+	"sync/atomic"
 	"time"
 )
+
+// Memory pressure: a jq program can double a value at every step, so a step cap alone does not
+// bound memory. A monitor goroutine samples the heap size (runtime/metrics, no stop-the-world);
+// while it is above the limit every simulated context closes its channel at its next poll, like
+// the step cap does. Where the truncation lands depends on timing, so a case during which it
+// happened is never judged (MemEvents is compared before and after the case).
+var (
+	memPressure atomic.Bool
+	MemEvents   atomic.Int64
+	monitorOn   atomic.Bool
+)
+
+var memLimit uint64
+
+// Relieve is called between cases: if the previous case left the process under memory pressure,
+// collect its garbage now so that the next case starts clean.
+func Relieve() {
+	if !memPressure.Load() {
+		return
+	}
+	sample := []metrics.Sample{{Name: "/memory/classes/heap/objects:bytes"}}
+	for i := 0; i < 3; i++ {
+		runtime.GC()
+		metrics.Read(sample)
+		if sample[0].Value.Uint64() < memLimit/2 {
+			memPressure.Store(false)
+			return
+		}
+	}
+}
+
+func StartMemoryMonitor(limitBytes uint64) {
+	memLimit = limitBytes
+	if !monitorOn.CompareAndSwap(false, true) {
+		return
+	}
+	go func() {
+		sample := []metrics.Sample{{Name: "/memory/classes/heap/objects:bytes"}}
+		for {
+			time.Sleep(5 * time.Millisecond)
+			metrics.Read(sample)
+			heap := sample[0].Value.Uint64()
+			switch {
+			case heap > limitBytes:
+				if !memPressure.Swap(true) {
+					go debug.FreeOSMemory()
+				}
+			case heap < limitBytes/2:
+				memPressure.Store(false)
+			default:
+				if memPressure.Load() {
+					debug.FreeOSMemory() // the big values are garbage once the run was cut
+				}
+			}
+		}
+	}()
+}
 
 type Ctx struct {
 	ch      chan struct{}
@@ -16,6 +77,7 @@ type Ctx struct {
 	Budget  int  // close the channel when Polls exceeds this (0 = none): step cap
 	Closed  bool // the channel has been closed
 	ByFault bool // closed by CloseAt or Cancel (a simulated cancellation), not by the budget
+	ByMem   bool // closed because of memory pressure
 	// ClosedAtPoll is the poll count at the moment of closing.
 	ClosedAtPoll int
 	// OnPoll, if set, runs inside every Done() call before the decision
@@ -48,6 +110,11 @@ func (c *Ctx) Done() <-chan struct{} {
 	}
 	if c.OnPoll != nil {
 		c.OnPoll(c)
+	}
+	if !c.Closed && memPressure.Load() {
+		MemEvents.Add(1)
+		c.ByMem = true
+		c.close(false)
 	}
 	if !c.Closed {
 		if c.CloseAt > 0 && c.Polls >= c.CloseAt {
